@@ -22,7 +22,9 @@ import time
 VERIF = os.path.dirname(os.path.dirname(os.path.abspath(__file__)))
 REPO = os.environ.get("VERIF_REPO", "/repo")
 SPECS = os.path.join(VERIF, "specs")
-EVIDENCE = os.path.join(VERIF, "evidence")
+# runs against a scratch worktree (seeded changes) must not touch the committed evidence
+EVIDENCE = os.path.join(VERIF, "evidence") if REPO == "/repo" else os.path.join(
+    tempfile.gettempdir(), "verif-alt-evidence")
 REPLAY = os.path.join(EVIDENCE, "replay")
 KNOWN_FINDINGS = os.path.join(VERIF, "KNOWN_FINDINGS.txt")
 PY = "/venv/bin/python"
